@@ -68,15 +68,15 @@ def corpora(seed, tier):
     thorough = tier == "thorough"
     rng = random.Random(seed * 1000003 + (7 if thorough else 3))
     c = {}
-    c["sv"] = g.server_valid(rng, 12000 if thorough else 1500, multi=24 if thorough else 4)
+    c["sv"] = g.server_valid(rng, 36000 if thorough else 1500, multi=24 if thorough else 4)
     c["sc"] = g.server_cap_streams(rng)
     c["sh"] = g.server_hostile(rng, quick=not thorough)
     c["sf"] = g.server_floods(rng)
-    c["sm"] = g.mutated(rng, c["sv"], 3000 if thorough else 200, "server", "sm")
-    c["cv"] = g.client_valid(rng, 4000 if thorough else 360)
+    c["sm"] = g.mutated(rng, c["sv"], 6000 if thorough else 200, "server", "sm")
+    c["cv"] = g.client_valid(rng, 10000 if thorough else 360)
     c["ch"] = g.client_hostile(rng, quick=not thorough)
     c["cf"] = g.client_floods(rng)
-    c["cm"] = g.mutated(rng, c["cv"], 1500 if thorough else 120, "client", "cm")
+    c["cm"] = g.mutated(rng, c["cv"], 3000 if thorough else 120, "client", "cm")
     return c
 
 
@@ -106,6 +106,7 @@ class Shard:
         self.records = {}     # stream id -> c15 record
         self.events = []      # dict(kind=hang|crash|timeout, id, detail)
         self.rrs = []
+        self.flaky = []       # first observations that differed once and were not reproduced on the careful re-run
 
 
 def run_shard(ctx, binary, sh):
@@ -127,6 +128,8 @@ def run_shard(ctx, binary, sh):
         begun, hang = None, None
         for r in rr.records:
             t = r.get("t")
+            if t == "flaky":
+                sh.flaky.append(r)
             if t == "c15":
                 sh.records[r["id"]] = r
             elif t == "begin":
@@ -372,8 +375,11 @@ class Judge:
                 if st.hclass == "cl-and-te" and ref["bl"] == 5 and ref["bx"] == b"hello".hex():
                     self.count("hostile_rejected")   # Transfer-Encoding overrides Content-Length (RFC 9112 6.3 rule 3): acceptable
                 else:
-                    self.viol(hkey("client", st.hclass), "response with invalid length information (%s) was framed and returned: status %d, %d body bytes (%s)"
-                              % (st.note or st.hclass, ref["st"], ref["bl"], ref["bx"][:40]), st, rec, mode, flavor)
+                    why = ("over-cap / never-ending stream (%s)" % st.hclass) if st.kind == "f" or st.hclass == "header-over-cap" else \
+                          ("truncated message (%s)" % st.note) if st.hclass.startswith("truncated-") else \
+                          ("response with invalid length information (%s)" % (st.note or st.hclass))
+                    self.viol(hkey("client", st.hclass), "%s was framed and returned as a complete Response: status %d, %d body bytes (%s)"
+                              % (why, ref["st"], ref["bl"], ref["bx"][:40]), st, rec, mode, flavor)
             else:
                 self.count("hostile_rejected")
             if rec["ndiff"] and len(self.ctx.violations) == nv0:
@@ -472,6 +478,14 @@ def run(ctx):
 
     judge = Judge(ctx)
     retry = []
+    flaky = []
+    for sh in done:
+        for fr in sh.flaky:
+            f1 = fr.get("first", {})
+            flaky.append(dict(mode=fr.get("mode"), flavor=sh.flavor, id=fr.get("id"), cuts=fr.get("cuts"),
+                              first=dict(ok=f1.get("ok"), err=f1.get("err"), st=f1.get("st"), bl=f1.get("bl"), nreq=f1.get("nreq"),
+                                         sync=f1.get("sync"), closed=f1.get("closed"), ms=f1.get("ms"))))
+    ctx.extra["not_reproduced_first_observations_sample"] = flaky[:12]
     for sh in done:
         for rr in sh.rrs:
             ctx.ingest(rr, where="(%s, %s)" % (sh.mode, sh.flavor))
